@@ -718,6 +718,10 @@ func runSolver(s solverSpec, ms int, script string, nchecks int, dir, tag string
 	return res, out.String()
 }
 
+// obligations that already have a definitively failed instance: further instances are not retried on
+// the slower solvers (the obligation is reported as failed either way)
+var failedObs sync.Map
+
 func (E *Engine) solvePath(key string, pi int, p *PathResult, full string) []SubResult {
 	n := len(p.Checks)
 	out := make([]SubResult, n)
@@ -750,6 +754,10 @@ func (E *Engine) solvePath(key string, pi int, p *PathResult, full string) []Sub
 		if out[i].Status == "unsat" {
 			continue
 		}
+		if _, done := failedObs.Load(c.Ob); done {
+			out[i].Detail = "not retried: another instance of this obligation has already failed on every solver"
+			continue
+		}
 		single := head1(full, i)
 		var notes []string
 		notes = append(notes, fmt.Sprintf("%s: %s", out[i].Solver, out[i].Status))
@@ -774,6 +782,9 @@ func (E *Engine) solvePath(key string, pi int, p *PathResult, full string) []Sub
 			}
 		}
 		out[i].Detail = strings.Join(notes, "; ")
+		if out[i].Status != "unsat" {
+			failedObs.Store(c.Ob, true)
+		}
 	}
 	return out
 }
